@@ -173,10 +173,8 @@ func c18bridge(steps, bound, slice int, late ...bool) *explore.Scenario {
 					}
 				case strings.HasPrefix(op, "DropNext"):
 					fmt.Sscanf(op, "DropNext(%d,%d)", &d, &a)
-					if m.reordN[d] > 0 {
-						script = append(script, "skip")
-						continue // precedence between a drop and a reorder window is not specified
-					}
+					// a drop window and a reorder window pending together: "the next n writes" are dropped as if they had
+					// never been written, and the reorder window collects the next writes that survive
 					// with a filter installed: "the next n writes" are the next n calls of Write, whatever the filter
 					// would have said about them (a write is delivered iff it is outside the window AND passes the filter)
 					script = append(script, op)
@@ -184,7 +182,7 @@ func c18bridge(steps, bound, slice int, late ...bool) *explore.Scenario {
 					m.dropN[d] = a
 				case strings.HasPrefix(op, "ReorderNext"):
 					fmt.Sscanf(op, "ReorderNext(%d,%d)", &d, &a)
-					if m.dropN[d] > 0 || m.filter[d] {
+					if m.filter[d] {
 						script = append(script, "skip")
 						continue
 					}
@@ -572,6 +570,6 @@ func init() {
 			return []*explore.Scenario{c18bridge(5, 0, 8), c18bridge(4, 0, 2), c18bridge(3, 0, 0), c18bridge(3, 1, 8), c18bridge(6, 0, 8, true), c18dpipe(6), c18dpipeBlocked(true, 2), c18dpipeBlocked(false, 2)}
 		},
 		Rule: "Bridge: every script of the stated length over {writes of 0/1/3-byte messages in both directions, DropNextNWrites, ReorderNextNWrites (1,2,3; also repeated), Drop, Reorder, Filter (set and cleared), Tick, Process} with parked reader threads (one variant: the reader of one direction starts late, and a Tick without a waiting reader must leave the queue untouched) (slices of 0, 2, 8 bytes), compared per endpoint with a script interpreter; dpipe: every script over {writes both ways incl. empty, reads with short/long/zero-length slices (a zero-length read still consumes one message), Close of either end, filling the 1000-message buffer}; plus: buffer full, one more Write blocked in its own thread, then the writing end is closed / the peer reads one",
-		Assumptions: []string{"precedence between a reorder window and a drop window or filter, and Drop with an offset beyond the queue, are not specified by the property: such steps are skipped; a drop window counts calls of Write (a write is delivered iff it is outside the window and passes the filter); ReorderNextNWrites re-armed while a window is partly collected: messages are compared as a multiset for that direction (nothing lost, duplicated or invented; order within the merged window unspecified)",
+		Assumptions: []string{"precedence between a reorder window and a filter, and Drop with an offset beyond the queue, are not specified by the property: such steps are skipped; a drop window pending together with a reorder window: the dropped writes count as never written and the reorder window collects the next surviving writes; a drop window counts calls of Write (a write is delivered iff it is outside the window and passes the filter); ReorderNextNWrites re-armed while a window is partly collected: messages are compared as a multiset for that direction (nothing lost, duplicated or invented; order within the merged window unspecified)",
 			"a one-message reordering delivers that message (reversal of one element)"}})
 }
